@@ -40,6 +40,8 @@ type tunCfg struct {
 	Sticky     int
 	Window     int  // gateway's outbound window (1 = stop-and-wait)
 	ReuseChan  bool // the gateway hands out the same channel id again after a reconnect
+	WriteErr   int  // permille of the client's socket writes that fail (C10: "after the socket died")
+	ReadErr    bool // the client's socket read fails at a decision-chosen instant (ICMP error): the receiver ends
 	Starve     int  // permille of library goroutines held back at start
 	StarveMax  time.Duration
 	FaultFree  bool
@@ -207,6 +209,10 @@ func drawTunCfg(e *Env) tunCfg {
 	case "C10":
 		c.Closers = 1 + e.Choose("cfg.closers", 4)
 		c.CloseEarly = true
+		if shape >= 2 {
+			c.WriteErr = []int{0, 0, 0, 50, 300}[e.Choose("cfg.werr", 5)]
+			c.ReadErr = e.Choose("cfg.rerr", 4) == 0
+		}
 		if shape >= 3 {
 			c.Director = e.Choose("cfg.dir3", 3)
 		}
@@ -219,6 +225,7 @@ func drawTunCfg(e *Env) tunCfg {
 	}
 	c.Up.LateExtra, c.Down.LateExtra = 3*c.R, 3*c.R
 	if c.TCP {
+		c.WriteErr, c.ReadErr = 0, false
 		c.Adversary, c.Director = 0, 0
 		c.Up.DropPermille, c.Up.DupPermille, c.Up.LatePermille = 0, 0, 0
 		c.Down = c.Up
@@ -227,10 +234,10 @@ func drawTunCfg(e *Env) tunCfg {
 }
 
 func (c tunCfg) String() string {
-	return fmt.Sprintf("tcp=%v R=%v T=%v H=%v local=%v senders=%dx%d think=%v inbound=%d/%v reader=%s closers=%d early=%v up={drop=%d dup=%d late=%d dmax=%v} down={drop=%d dup=%d late=%d dmax=%v} tlate=%d adv=%d dir=%d sticky=%d window=%d starve=%d/%v reusechan=%v",
+	return fmt.Sprintf("tcp=%v R=%v T=%v H=%v local=%v senders=%dx%d think=%v inbound=%d/%v reader=%s closers=%d early=%v up={drop=%d dup=%d late=%d dmax=%v} down={drop=%d dup=%d late=%d dmax=%v} tlate=%d adv=%d dir=%d sticky=%d window=%d starve=%d/%v reusechan=%v werr=%d rerr=%v",
 		c.TCP, c.R, c.T, c.H, c.LocalAddr, c.Senders, c.SendsEach, c.Think, c.Inbound, c.InboundGap, c.Reader, c.Closers, c.CloseEarly,
 		c.Up.DropPermille, c.Up.DupPermille, c.Up.LatePermille, c.Up.DelayMax, c.Down.DropPermille, c.Down.DupPermille, c.Down.LatePermille, c.Down.DelayMax,
-		c.TimerLate, c.Adversary, c.Director, c.Sticky, c.Window, c.Starve, c.StarveMax, c.ReuseChan)
+		c.TimerLate, c.Adversary, c.Director, c.Sticky, c.Window, c.Starve, c.StarveMax, c.ReuseChan, c.WriteErr, c.ReadErr)
 }
 
 func idMessage(id int) cemi.Message {
@@ -358,6 +365,11 @@ func runTunnel(e *Env) {
 		return
 	}
 	r.tun = tun
+	if c.WriteErr > 0 {
+		up := c.Up
+		up.WriteErrPermille = c.WriteErr
+		e.F.SetLink(clientIP, gwIP, up)
+	}
 	r.startWorkload()
 	r.finish()
 	checkTunnel(r)
@@ -406,6 +418,14 @@ func (r *tunRun) startWorkload() {
 	if c.Director > 0 {
 		r.stimLeft++
 		s.Spawn("director", func() { r.director(); r.stimLeft-- })
+	}
+	if c.ReadErr {
+		s.Spawn("icmp", func() {
+			s.SleepFor(time.Duration(e.Choose("flt.rerrat", 300)) * (c.T + 4*c.R) / 100)
+			for _, u := range e.F.LibUDPConns() {
+				u.InjectReadError(fmt.Errorf("connection refused"))
+			}
+		})
 	}
 	for j := 0; j < c.Closers; j++ {
 		j := j
